@@ -9,6 +9,10 @@ def parseQuery (s : String) : Option Query :=
   | ["fin", k] => (natOfChars k.toList).map fun k => Query.ofList ((List.range k).map fun i => .answer (i + 1))
   | ["err", j] => (natOfChars j.toList).map fun j =>
       Query.ofList ((List.range j).map (fun i => Event.answer (i + 1)) ++ [.error 0])
+  -- the endless query under a context cancelled right after its J-th answer: from then on it HAS ended in
+  -- an error — the outcome stream of "err J"
+  | ["can", j] => (natOfChars j.toList).map fun j =>
+      Query.ofList ((List.range j).map (fun i => Event.answer (i + 1)) ++ [.error 0])
   | ["mix", k] => (natOfChars k.toList).map fun k =>
       -- answers 1, unbound (0), 3, unbound, …
       Query.ofList ((List.range k).map fun i => .answer (if i % 2 = 0 then i + 1 else 0))
@@ -101,11 +105,36 @@ def zeroWork (s : String) : String :=
   | [a, b] => a ++ "work=0" ++ String.ofList (b.toList.dropWhile Char.isDigit)
   | _ => s
 
+/-- what Err shows for a cancelled context -/
+def canceledItem : String := "E:goerr%20context%2520canceled"
+
+def mapWork (f : Nat → Nat) (s : String) : String :=
+  match s.splitOn "work=" with
+  | [a, b] =>
+    let ds := b.toList.takeWhile Char.isDigit
+    a ++ "work=" ++ toString (f ((natOfChars ds).getD 0)) ++ String.ofList (b.toList.dropWhile Char.isDigit)
+  | _ => s
+
 def seqHandler : Handler := fun payload impl =>
   let (qs, os) := splitBar payload
   match parseQuery qs, parseOps os with
   | some q, some ops =>
-    if trim qs == "cut" then
+    if (words qs).head? == some "can" then
+      -- as "err J", except that the error is the context's and that the search step which would have found
+      -- the end never runs (the cancelled context is seen first)
+      let st := (run q ops).1
+      let fin := st.finished
+      let model := (seqModel q ops).replace "E:ball%20Aoops" canceledItem
+      let implAsErr := impl.replace canceledItem "E:ball%20Aoops"
+      -- once the context is cancelled the search goroutine MAY go away on its own, before the iterator is
+      -- told (it is no longer needed): both counts are accepted between the cancellation and the end
+      let j := (natOfChars ((words qs).getD 1 "").toList).getD 0
+      let gFree := !fin && !st.closed && st.pos ≥ j && (impl.splitOn " g=0").length == 2
+      let model := if gFree then model.replace " g=1" " g=0" else model
+      let implAsErr := if gFree then implAsErr.replace " g=0" " g=1" else implAsErr
+      (if fin then mapWork (· - 1) model else model,
+       if skipped impl then "-" else seqJudge q ops (if fin then mapWork (· + 1) implAsErr else implAsErr))
+    else if trim qs == "cut" then
       -- judge with the work counter the specification would show for a one-answer query
       let implAsFin := match impl.splitOn "work=0" with
         | [a, b] =>
